@@ -172,7 +172,9 @@ func (e *Env) open() error {
 		gofakes3.WithHostBucket(cfg.HostBucket),
 	}
 	if cfg.HostBase {
-		opts = append(opts, gofakes3.WithHostBucketBase("sim"))
+		// several bases, "tested in order": a global endpoint listed before a
+		// regional one below it
+		opts = append(opts, gofakes3.WithHostBucketBase("sim", "eu.sim", "other.example"))
 	}
 	if os.Getenv("SIMCHECK_DEBUG") != "" {
 		opts = append(opts, gofakes3.WithGlobalLog())
